@@ -16,7 +16,8 @@ EXPLANATION = ''
 
 CORPUS_WORDS = ['', "'", "''", "'''", "a'", "'a", "'a'", "a'b", "''a", "a''", "' '", "\\", "\\'", "'\\''", "$", "$$", "#",
                 "a b", " ", "\t", "~", "~x", "%", "a,b", "(", ")", "a=b", "=", "-", "@", "+", "é", "€", "a\xa0b",
-                "&&", "&", ";", "|", "*", "?", "[a]", "!", "`x`", "$(x)", "${x}", '"', '"a b"', "a\\ b"]
+                "&&", "&", ";", "|", "*", "?", "[a]", "!", "`x`", "$(x)", "${x}", '"', '"a b"', "a\\ b",
+                "a#b", "a\\#b", "\\#", "a\\\\#b", "#\\", "x\\\\\\#y z", "~/x", "a:~", "a=~/b", "-DX=a\\#b"]
 
 
 def nontrivial(s):
